@@ -122,3 +122,18 @@ Theorem C02_engine_quiet_commands_attempt_ends_only_by_retry : forall tasks deps
   step tasks deps validate true true s l = Some s' -> started s t = true -> l <> Rearm t -> started s' t = true.
 Proof. exact quiet_started_kept. Qed.
 Print Assumptions C02_engine_quiet_commands_attempt_ends_only_by_retry.
+
+(** The executor never holds two deliveries of one task - whatever is pushed, however often the same task object
+    is handed over, with any number of workers (ExecReg): no two concurrent runs of a task by duplicate pushes. *)
+From FF Require Import ExecReg ExecRegFacts.
+
+Theorem C02_executor_one_delivery_per_task : forall nworkers f ls s,
+  xrun nworkers false (xinit f) ls = Some s -> NoDup (owners s).
+Proof. exact one_delivery_per_task. Qed.
+Print Assumptions C02_executor_one_delivery_per_task.
+
+Theorem C02_executor_registered_has_owner : forall nworkers f ls s t,
+  xrun nworkers false (xinit f) ls = Some s -> reg s t = true ->
+  (exists d, held s = Some d /\ dt d = t) \/ (exists d ph, In (d, ph) (work s) /\ dt d = t).
+Proof. exact registered_has_owner. Qed.
+Print Assumptions C02_executor_registered_has_owner.
